@@ -250,14 +250,13 @@ namespace KinModel.Marshal
 
 /-! ### one level of the composition over nesting -/
 
-theorem mapM_ok_of_forall {α β : Type} (f : α → Res β) (g : α → β) :
-    ∀ (l : List α), (∀ x ∈ l, f x = .ok (g x)) → l.mapM f = .ok (l.map g)
+theorem mapR_ok_of_forall {α β : Type} (f : α → Res β) (g : α → β) :
+    ∀ (l : List α), (∀ x ∈ l, f x = .ok (g x)) → mapR f l = .ok (l.map g)
   | [], _ => rfl
   | x :: l, h => by
     have hx := h x (by simp)
-    have hl := mapM_ok_of_forall f g l (fun y hy => h y (List.mem_cons_of_mem _ hy))
-    simp only [List.mapM_cons, hx, hl, List.map_cons]
-    rfl
+    have hl := mapR_ok_of_forall f g l (fun y hy => h y (List.mem_cons_of_mem _ hy))
+    simp only [mapR, hx, hl, List.map_cons]
 
 theorem filter_map_eq_filterMap_emit (d : Desc) (r : Rec) : ∀ (ms : List MField),
     (ms.filter (fun m => guard (tcOfGo d m.goName) m.guard (r.fld m.goName))).map
@@ -277,14 +276,15 @@ theorem marshalDeep_of_children_fixed (f : Shape → JV → Res JV) (d : Desc) (
   unfold marshalDeep marshal marshalWith
   split
   · rfl
-  · have := mapM_ok_of_forall
-      (fun (m : MField) => (f (shapeOfGo d m.goName) (written m.guard (r.fld m.goName))).map (fun v' => (m.key, v')))
+  · have := mapR_ok_of_forall
+      (fun (m : MField) =>
+          (f (shapeOfGo d m.goName) (written m.guard (r.fld m.goName))).wrap (fun v' => (m.key, v')))
       (fun m => (m.key, written m.guard (r.fld m.goName)))
       (d.marsh.filter (fun m => guard (tcOfGo d m.goName) m.guard (r.fld m.goName)))
       (by
         intro m hm
         obtain ⟨hm1, hm2⟩ := List.mem_filter.mp hm
-        rw [h m hm1 hm2]; rfl)
+        simp only [h m hm1 hm2, Res.wrap])
     rw [this, filter_map_eq_filterMap_emit]
     rfl
 
